@@ -42,6 +42,7 @@ type spec struct {
 	Attempts int        `json:"attempts,omitempty"`
 	Burst    *burstSpec `json:"burst,omitempty"` // kind = burst
 	Sia      *siaSpec   `json:"sia,omitempty"`   // kind = sia
+	Rem      *remSpec   `json:"rem,omitempty"`   // kind = rem
 }
 
 func (s spec) replayArg() string {
@@ -168,6 +169,18 @@ func (g *seqGen) size(live lruAPI, k int64) int64 {
 	}
 }
 
+func sameInts(a, b []int64) bool {
+	if len(a) != len(b) {
+		return false
+	}
+	for i := range a {
+		if a[i] != b[i] {
+			return false
+		}
+	}
+	return true
+}
+
 func clamp0(x int64) int64 {
 	if x < 0 {
 		return 0
@@ -241,18 +254,21 @@ type seqStep struct {
 	Snap snapshot
 }
 
-// runSeq executes the operation list on a fresh real cache.
-func runSeq(s spec) []seqStep {
+// runSeq executes the operation list on a fresh real cache.  The caller keeps (without copying) every non-empty removed
+// list and the Keys() / Items() slices of every fourth step, and re-reads them when the history is over.
+func runSeq(s spec) ([]seqStep, []heldSlice) {
 	c := newLRU(s.Variant, s.Cap, s.KK, s.Facade)
 	steps := make([]seqStep, 0, len(s.Ops))
-	for _, o := range s.Ops {
+	for i, o := range s.Ops {
+		c.Hold(true, false)
 		out := doOp(c, o)
+		c.Hold(false, i%4 == 1)
 		steps = append(steps, seqStep{o, out, takeSnap(c)})
 	}
-	return steps
+	return steps, c.Held()
 }
 
-func seqCase(s spec, steps []seqStep) vh.Case {
+func seqCase(s spec, steps []seqStep, held []heldSlice) vh.Case {
 	parts := make([]string, len(steps))
 	desc := make([]string, len(steps))
 	hit, evicted := false, false
@@ -266,9 +282,23 @@ func seqCase(s spec, steps []seqStep) vh.Case {
 			evicted = true
 		}
 	}
-	coq := fmt.Sprintf("(CSeq %s %s [%s])%%Z", coqVariant(s.Variant), z(s.Cap), strings.Join(parts, ";\n "))
-	return vh.Case{Coq: coq, Class: s.Class, Nontrivial: hit && evicted, Replay: s.replayArg(),
-		Desc: map[string]interface{}{"kind": "sequential history", "cache": s.Variant, "capacity": s.Cap, "steps": desc}}
+	hs := make([]string, len(held))
+	var changed []string
+	for i, h := range held {
+		if sameInts(h.AtReturn, h.Now) {
+			hs[i] = "hq " + zlist(h.AtReturn)
+		} else {
+			hs[i] = "hp " + zlist(h.AtReturn) + " " + zlist(h.Now)
+			changed = append(changed, fmt.Sprintf("a slice returned by %s held %v when the call returned and holds %v after the history", h.What, h.AtReturn, h.Now))
+		}
+	}
+	stat.heldSlices += len(held)
+	coq := fmt.Sprintf("(CHeld %s %s [%s]\n [%s])%%Z", coqVariant(s.Variant), z(s.Cap), strings.Join(parts, ";\n "), strings.Join(hs, ";"))
+	d := map[string]interface{}{"kind": "sequential history", "cache": s.Variant, "capacity": s.Cap, "steps": desc, "slices_kept_by_the_caller": len(held)}
+	if len(changed) > 0 {
+		d["kept_slices_that_changed"] = changed
+	}
+	return vh.Case{Coq: coq, Class: s.Class, Nontrivial: hit && evicted, Replay: s.replayArg(), Desc: d}
 }
 
 func genSeq(rnd *rand.Rand, variant, class string, length int) spec {
@@ -530,6 +560,7 @@ type tally struct {
 	shardHist                                                                             map[string]int
 	overlapPairs, reordered, concCases, noLinearisation                                   int
 	burstRounds, burstCalls, burstAnomalies                                               int
+	heldSlices, remRounds, remAnomalies                                                   int
 	siaRounds, siaAnomalies                                                               int
 }
 
@@ -615,14 +646,24 @@ func tallySeq(s spec, steps []seqStep) {
 func emitSpec(e *vh.Env, s spec, unresolved *int) {
 	switch s.Kind {
 	case "seq":
-		steps := runSeq(s)
+		steps, held := runSeq(s)
 		tallySeq(s, steps)
-		e.Emit(seqCase(s, steps))
+		e.Emit(seqCase(s, steps, held))
 	case "wide":
 		steps := runWide(s)
 		stat.ops += len(steps)
 		stat.shardHist[fmt.Sprintf("shards=%d", s.N)]++
 		e.Emit(wideCase(s, steps))
+	case "rem":
+		n := s.Attempts
+		if n == 0 {
+			n = 1
+		}
+		for i := 0; i < n; i++ {
+			c := remCase(*s.Rem)
+			c.Replay = spec{Kind: "rem", Rem: s.Rem}.replayArg()
+			e.Emit(c)
+		}
 	case "sia":
 		n := s.Attempts
 		if n == 0 {
@@ -711,7 +752,7 @@ func main() {
 			if s.Kind == "conc" {
 				s.Attempts = 20
 			}
-			if s.Kind == "burst" || s.Kind == "sia" {
+			if s.Kind == "burst" || s.Kind == "sia" || s.Kind == "rem" {
 				s.Attempts = 40 // the schedule is the runtime's: repeat the same programs
 			}
 			emitSpec(e, s, &unresolved)
@@ -790,6 +831,17 @@ func main() {
 				emitSpec(e, spec{Kind: "sia", Sia: &b}, &unresolved)
 			}
 		}
+		// concurrent SetAndGetRemoved, removed lists kept by the callers
+		nRem := e.Scale(16, 300)
+		for _, v := range []string{"std", "tiny"} {
+			for i, m := 0, boost("rem/"+v, nRem); i < m; i++ {
+				b := genRem(e.Rnd, v)
+				emitSpec(e, spec{Kind: "rem", Rem: &b}, &unresolved)
+			}
+		}
+		e.Meta["rem_rounds"] = stat.remRounds
+		e.Meta["rem_rounds_with_anomaly_seen_by_harness_advisory"] = stat.remAnomalies
+		e.Meta["seq_slices_kept_by_the_caller_and_reread"] = stat.heldSlices
 		e.Meta["sia_rounds"] = stat.siaRounds
 		e.Meta["sia_rounds_with_anomaly_seen_by_harness_advisory"] = stat.siaAnomalies
 		e.Meta["burst_rounds"] = stat.burstRounds
